@@ -191,6 +191,36 @@ def run(ctx) -> list[Inst]:
         else:
             insts.append(Inst(RULE, f.short, construct, 'ok', msg=f'{len(facts.effects)} transitive effects examined',
                               file=f.module.relpath, line=f.node.lineno, props=lp))
+    # ---------------------------------------------------------------- PUREQ: getters are pure
+    # a lookup (get_* / is_* / *_exists_* method of Model, AttackGraph, LanguageGraph, LanguageGraphAsset,
+    # AttackGraphNode, Attacker) changes nothing on its object: a result cached on the object answers for the
+    # state at the time of the FIRST call and has to be invalidated by every mutator - none of them knows about it
+    for cname in ('Model', 'AttackGraph', 'LanguageGraph', 'LanguageGraphAsset', 'AttackGraphNode', 'Attacker',
+                  'LanguageGraphAttackStep', 'LanguageClassesFactory'):
+        c = prog.classes.get(cname)
+        if c is None:
+            continue
+        for m in c.methods.values():
+            nm = m.name
+            if not (nm.startswith(('get_', 'is_', 'has_')) or '_exists_' in nm or nm in ('full_name',)):
+                continue
+            if nm.startswith('_'):
+                continue
+            facts = an.of(m)
+            own = [e for e in facts.effects if e.path.root == ('param', m.self_name)]
+            construct = f'PUREQ: {cname}.{nm} changes nothing on its object'
+            lp = tuple(dict.fromkeys(tuple(props_for(m.short, m.module.relpath)) + ('C16',)))
+            if own:
+                e = own[0]
+                insts.append(Inst(
+                    RULE, m.short, construct, 'violation',
+                    msg=(f"'{e.text}' ({e.func}:{e.lineno}) writes {e.path!r} from inside a lookup: state kept on the "
+                         f"object by a getter (a cache) is not refreshed when the object changes later (add / remove / "
+                         f"regenerate), the lookup then answers for an earlier state"),
+                    file=m.module.relpath, line=e.lineno, props=lp))
+            else:
+                insts.append(Inst(RULE, m.short, construct, 'ok', file=m.module.relpath, line=m.node.lineno,
+                                  props=lp, nontrivial=False))
     # ---------------------------------------------------------------- PURE (R11)
     qmod = prog.module('maltoolbox/attackgraph/query.py')
     for f in qmod.functions.values():
